@@ -6,10 +6,11 @@
 import NrfModel.Drv.Net
 import NrfModel.Drv.Rf
 import NrfModel.Drv.NetS
+import NrfModel.Drv.Mesh
 
 open Nrf.Drv
 
-def allHandlers : List (String × Handler) := netHandlers ++ rfHandlers ++ netSHandlers
+def allHandlers : List (String × Handler) := netHandlers ++ rfHandlers ++ netSHandlers ++ meshHandlers
 
 def dispatch (line : String) : String :=
   match (line.splitOn " ").filter (· ≠ "") with
